@@ -285,6 +285,7 @@ def run(tier, seed):
             if cfg["target"] == "uniform":
                 cfg["boxed"] = True
             cfg["afterwards"] = random.Random(cfg["seed"] ^ 0x9E3779B9).choice(["nothing", "nothing", "refused-start", "refused-open"])
+            cfg["nested"] = ci == 3 or random.Random(cfg["seed"] ^ 0x7F4A7C15).random() < 0.15
             bseed = rnd.randrange(1 << 30)
             unthinned = None
             ts = divisors(P)
@@ -295,6 +296,21 @@ def run(tier, seed):
                 for ext in ("h5", "npy"):
                     s, dist, q0, kw = build(bseed, cfg)
                     fn = os.path.join(tmp, f"c{ci}_{t}.{ext}")
+                    if cfg["nested"]:
+                        # a target whose misfit runs a short sampler of its own, with its own samples file (a marginalised nuisance parameter):
+                        # two writers are alive at the same time; each file is the chain of its own sampler
+                        _, S_, _, D_ = _hm()
+                        inner_fn = os.path.join(tmp, f"c{ci}_{t}_inner.{'npy' if ext == 'h5' else 'h5'}")
+                        orig_misfit, counter = dist.misfit, {"k": 0}
+
+                        def nested_misfit(m_, orig_misfit=orig_misfit, counter=counter, inner_fn=inner_fn):
+                            v = orig_misfit(m_)
+                            counter["k"] += 1
+                            if counter["k"] % 3 == 2:
+                                S_.RWMH(seed=77).sample(inner_fn, D_.Normal(np.zeros((2, 1)), 1.0), proposals=3, overwrite_existing_file=True, disable_progressbar=True)
+                            return v
+
+                        dist.misfit = nested_misfit
                     with quiet(), np.errstate(all="ignore"):
                         # history: the same sampler object has already been used for earlier runs (other file, other length)
                         for hrun in range(cfg["earlier_runs"]):
@@ -346,6 +362,8 @@ def run(tier, seed):
                 if cfg["same_path"]:
                     st.count(f"replaces an existing file, overwrite_existing_file={cfg['overwrite_flag']}")
                 st.count(f"afterwards: {cfg['afterwards']}")
+                if cfg["nested"]:
+                    st.count("the target runs an inner sampler with a file of its own")
                 if t == 1:
                     unthinned = arr
                 problems = []
